@@ -222,9 +222,25 @@ class Engine:
         t = crate.types[tyix]
         return self.decode_bytes(hexs, t, crate)
 
-    def decode_bytes(self, hexs, t, crate):
+    def decode_bytes(self, hexs, t, crate, base=0, relocs=None):
+        """decode constant bytes by type layout; `relocs` = {absolute offset: fn info} for pointers stored in the constant
+        (function-pointer tables), `base` = offset of these bytes inside the whole constant"""
         raw = bytes.fromhex(hexs)
         k = t.get('k')
+        if k == 'fnptr' and relocs and base in relocs:
+            return ('fn', FnInfo(relocs[base]))
+        if k == 'tuple' and 'offsets' in t and len(t['offsets']) == len(t['args']):
+            fields = []
+            for off, sz, a in zip(t['offsets'], t.get('sizes') or [], t['args']):
+                off, sz = int(off), int(sz)
+                fields.append(self.decode_bytes(raw[off:off + sz].hex(), crate.types[int(a)], crate, base + off, relocs))
+            return ('agg', 'tuple', None, tuple(fields))
+        if k == 'array' and t.get('esize') and crate.types[t['inner']].get('k') not in ('int', 'uint'):
+            es = int(t['esize'])
+            if es > 0 and len(raw) % es == 0:
+                inner = crate.types[t['inner']]
+                return ('agg', 'array', None, tuple(self.decode_bytes(raw[i:i + es].hex(), inner, crate, base + i, relocs)
+                                                    for i in range(0, len(raw), es)))
         if k in ('int', 'uint', 'bool'):
             n = (t.get('bits', 8)) // 8 if k != 'bool' else 1
             val = int.from_bytes(raw[:n], 'little', signed=(k == 'int'))
@@ -237,6 +253,13 @@ class Engine:
                 for v in adt['variants']:
                     if v.get('discr', v['index']) == val:
                         return ('agg', t['s'], v['name'], ())
+            if adt and adt['kind'] == 'enum' and 'tag_off' in adt:
+                # a data-carrying enum with a directly encoded tag: the variant is known, payload bytes stay opaque
+                to, tsz = int(adt['tag_off']), int(adt['tag_size'])
+                val = int.from_bytes(raw[to:to + tsz], 'little')
+                for v in adt['variants']:
+                    if v.get('discr', v['index']) == val:
+                        return ('agg', t['s'], v['name'], tuple(C(('b', raw.hex()), 'payload') for _ in v['fields']))
             if adt and adt['kind'] == 'struct' and 'size' in adt:
                 fields = []
                 ok = True
@@ -246,7 +269,7 @@ class Engine:
                         break
                     ft = crate.types[f['ty']]
                     sub = raw[f['offset']:f['offset'] + f['size']]
-                    fields.append(self.decode_bytes(sub.hex(), ft, crate))
+                    fields.append(self.decode_bytes(sub.hex(), ft, crate, base + f['offset'], relocs))
                 if ok:
                     return ('agg', t['s'], adt['variants'][0]['name'], tuple(fields))
         if k == 'array':
@@ -273,7 +296,8 @@ class Engine:
         if 'str' in o:
             return C(('s', o['str']), ts)
         if 'bytes' in o:
-            return self.decode_bytes(o['bytes'], t, crate)
+            relocs = {int(r['off']): r['fn'] for r in (o.get('relocs') or [])}
+            return self.decode_bytes(o['bytes'], t, crate, 0, relocs or None)
         if 'ptr_bytes' in o:
             if t.get('k') in ('ref', 'ptr'):
                 return ('ref', (('K', o['ptr_bytes'], (t['inner'], crate)), ()))
